@@ -1,8 +1,21 @@
 (* C15 driver:  <id> : s e ; src lines ; fmt lines : observed result lines      (a document = n (k t1..tk)…)
-   -> <id> M <model result lines, same encoding, or "none"> | J 1 *)
+   -> <id> M <model result lines, same encoding, or "none"> | J 1
+   indentation:  <id> : I <aligned 0/1> <n> n times [skip 0/1, k, k kinds] : <ignored>
+   -> <id> M <n entries: the indentation level of the line, or - for a line that is copied> | J 1 *)
 module M = C15_model
 open M
 let rec nat_of_int n = if n <= 0 then O else S (nat_of_int (n - 1))
+let rec pos_of_int n = if n = 1 then XH else if n land 1 = 0 then XO (pos_of_int (n lsr 1)) else XI (pos_of_int (n lsr 1))
+let n_of_int n = if n <= 0 then N0 else Npos (pos_of_int n)
+let rec int_of_pos = function XH -> 1 | XO p -> 2 * int_of_pos p | XI p -> 2 * int_of_pos p + 1
+let int_of_z = function Z0 -> 0 | Zpos p -> int_of_pos p | Zneg p -> - (int_of_pos p)
+let indent_lines l =
+  let rec go n l = if n = 0 then [] else (match l with
+    | sk :: k :: r ->
+      let rec take k l = if k = 0 then ([], l) else (match l with x :: r -> let (a, b) = take (k - 1) r in (n_of_int x :: a, b) | [] -> failwith "short") in
+      let (ks, r') = take k r in (sk <> 0, ks) :: go (n - 1) r'
+    | _ -> failwith "short") in
+  (match l with n :: r -> go n r | [] -> [])
 let split_ws s = List.filter (fun x -> x <> "") (String.split_on_char ' ' s)
 let doc_of l =
   let rec lines n l = if n = 0 then ([], l) else (match l with
@@ -19,6 +32,12 @@ let () =
       | [id; req; _obs] ->
         (try
           (match List.map String.trim (String.split_on_char ';' req) with
+           | [ind] when String.length ind > 1 && ind.[0] = 'I' ->
+             (match List.map int_of_string (split_ws (String.sub ind 1 (String.length ind - 1))) with
+              | al :: rest ->
+                let res = doc_indents (al <> 0) (indent_lines rest) in
+                Printf.printf "%s M %s | J 1\n" id (String.concat " " (List.map (function Some z -> string_of_int (int_of_z z) | None -> "-") res))
+              | [] -> Printf.printf "%s BAD\n" id)
            | [se; src; fmt] ->
              let (s, e) = (match List.map int_of_string (split_ws se) with [a; b] -> (a, b) | _ -> failwith "se") in
              let src = doc_of (List.map int_of_string (split_ws src)) and fmt = doc_of (List.map int_of_string (split_ws fmt)) in
